@@ -53,19 +53,25 @@ type CallIn struct {
 }
 
 type In struct {
-	Kind     string   `json:"kind"` // upd | cfgupd | unstarted | stopped | starting-dial | starting-mute
-	Idx      int      `json:"idx"`
-	P        int      `json:"P"`         // plugins
-	U        int      `json:"U"`         // updating goroutines per plugin
-	G        int      `json:"G"`         // runtime request goroutines
-	R        int      `json:"R"`         // requests per request goroutine
-	Procs    int      `json:"procs"`     // GOMAXPROCS
-	DwellUs  int      `json:"dwell_us"`  // UpdateFn dwell
-	HDwellUs int      `json:"hdwell_us"` // plugin handler dwell
-	Early    bool     `json:"early"`     // plugins start updating as soon as their own Start returned
-	Listen   bool     `json:"listen"`    // kind unstarted: is a runtime listening on the socket?
-	Calls    []CallIn `json:"calls"`
-	Seed     int64    `json:"seed"`
+	Kind     string `json:"kind"` // upd | cfgupd | unstarted | stopped | starting-dial | starting-mute
+	Idx      int    `json:"idx"`
+	P        int    `json:"P"`         // plugins
+	U        int    `json:"U"`         // updating goroutines per plugin
+	G        int    `json:"G"`         // runtime request goroutines
+	R        int    `json:"R"`         // requests per request goroutine
+	Procs    int    `json:"procs"`     // GOMAXPROCS
+	DwellUs  int    `json:"dwell_us"`  // UpdateFn dwell
+	HDwellUs int    `json:"hdwell_us"` // plugin handler dwell
+	Early    bool   `json:"early"`     // plugins start updating as soon as their own Start returned
+	Listen   bool   `json:"listen"`    // kind unstarted: is a runtime listening on the socket?
+	// the slow stream: a SHORT plugin request time-out (process-global in the repository, so it
+	// is set for the duration of the case; cases of one worker run one after the other) and a
+	// SLOW callback / slow handlers, so that calls queue for longer than the time-out
+	ReqTimeoutMs int      `json:"req_timeout_ms"` // 0 = the harness default (2 min)
+	SlowMs       int      `json:"slow_ms"`        // UpdateFn sleeps this long holding the adaptation mutex
+	HSlowMs      int      `json:"hslow_ms"`       // plugin request handlers sleep this long
+	Calls        []CallIn `json:"calls"`
+	Seed         int64    `json:"seed"`
 }
 
 type ErrObs struct {
@@ -85,6 +91,7 @@ type CallObs struct {
 	S1     int64    `json:"s1"` // before the stub call
 	S2     int64    `json:"s2"` // after it returned (0 = never returned)
 	Done   bool     `json:"done"`
+	WaitMs int64    `json:"wait_ms"` // wall time the stub call took
 	Failed []string `json:"failed"`
 	Err    *ErrObs  `json:"err"`
 }
@@ -102,7 +109,8 @@ type Obs struct {
 	Fn     []FnObs   `json:"fn"`
 	Calls  []CallObs `json:"calls"`
 	H      []HObs    `json:"h"`
-	Result string    `json:"result"` // kinds unstarted/stopped: noservice | error | ok | blocked
+	Stacks string    `json:"stacks,omitempty"` // on "blocked": the goroutines inside the repository's packages
+	Result string    `json:"result"`           // kinds unstarted/stopped: noservice | error | ok | blocked
 	WallMs int64     `json:"wall_ms"`
 }
 
@@ -196,6 +204,23 @@ func obsErr(err error) *ErrObs {
 	return &ErrObs{Code: -1, Msg: err.Error()}
 }
 
+// relevantStacks keeps the goroutines of a dump that are inside the adaptation, stub, ttrpc or
+// multiplex packages (what a human needs to see where a blocked run is stuck).
+func relevantStacks(dump string) string {
+	var out []string
+	for _, g := range strings.Split(dump, "\n\n") {
+		if strings.Contains(g, "nri/pkg/adaptation.") || strings.Contains(g, "nri/pkg/stub.") ||
+			strings.Contains(g, "nri/pkg/net/multiplex.") {
+			out = append(out, g)
+		}
+	}
+	s := strings.Join(out, "\n\n")
+	if len(s) > 60000 {
+		s = s[:60000]
+	}
+	return s
+}
+
 func rid(s string) int {
 	n, err := strconv.Atoi(strings.TrimPrefix(s, "r"))
 	if err != nil {
@@ -216,6 +241,10 @@ func runUpd(in In, dir string) (obs Obs) {
 	if in.Procs > 0 {
 		prev := runtime.GOMAXPROCS(in.Procs)
 		defer runtime.GOMAXPROCS(prev)
+	}
+	if in.ReqTimeoutMs > 0 {
+		adaptation.SetPluginRequestTimeout(time.Duration(in.ReqTimeoutMs) * time.Millisecond)
+		defer adaptation.SetPluginRequestTimeout(2 * time.Minute)
 	}
 	byU := map[int]*CallIn{}
 	var emptyScript *CallIn
@@ -245,6 +274,7 @@ func runUpd(in In, dir string) (obs Obs) {
 		list := encAll(us)
 		tk := token(us)
 		spin(in.DwellUs)
+		time.Sleep(time.Duration(in.SlowMs) * time.Millisecond)
 		var script *CallIn
 		switch {
 		case tk >= 0:
@@ -283,6 +313,7 @@ func runUpd(in In, dir string) (obs Obs) {
 		h := func(_ *api.PodSandbox, c *api.Container) {
 			sIn := rt.Stamp()
 			spin(in.HDwellUs)
+			time.Sleep(time.Duration(in.HSlowMs) * time.Millisecond)
 			sOut := rt.Stamp()
 			logMu.Lock()
 			hLog = append(hLog, HObs{R: rid(c.GetId()), P: i, In: sIn, Out: sOut})
@@ -292,6 +323,7 @@ func runUpd(in In, dir string) (obs Obs) {
 			rt.Hooks{Create: h, Update: h, Stop: h, Start: h, Pod: func(pd *api.PodSandbox) {
 				sIn := rt.Stamp()
 				spin(in.HDwellUs)
+				time.Sleep(time.Duration(in.HSlowMs) * time.Millisecond)
 				sOut := rt.Stamp()
 				logMu.Lock()
 				hLog = append(hLog, HObs{R: rid(pd.GetId()), P: i, In: sIn, Out: sOut})
@@ -342,11 +374,13 @@ func runUpd(in In, dir string) (obs Obs) {
 					cmu.Lock()
 					cobs[idxOf[c.U]].S1 = s1
 					cmu.Unlock()
+					t := time.Now()
 					failed, err := plugs[p].Stub.UpdateContainers(list)
+					wait := time.Since(t).Milliseconds()
 					s2 := rt.Stamp()
 					cmu.Lock()
 					co := &cobs[idxOf[c.U]]
-					co.S2, co.Done, co.Failed, co.Err = s2, true, encAll(failed), obsErr(err)
+					co.S2, co.Done, co.Failed, co.Err, co.WaitMs = s2, true, encAll(failed), obsErr(err), wait
 					cmu.Unlock()
 				}
 			}()
@@ -383,6 +417,13 @@ func runUpd(in In, dir string) (obs Obs) {
 		}
 		b := r.A.BlockPluginSync()
 		b.Unblock()
+		if in.ReqTimeoutMs > 0 {
+			// every stub has received the short time-out in its Configure request (that is the
+			// value stub.requestTimeout keeps). The runtime reads its own copy at call time:
+			// put it back, so that on a loaded machine no runtime->plugin call times out and
+			// drags the run into the plugin-dropping paths (C07's subject, not C19's).
+			adaptation.SetPluginRequestTimeout(2 * time.Minute)
+		}
 		for i := range plugs {
 			startUpdaters(i)
 		}
@@ -423,8 +464,10 @@ func runUpd(in In, dir string) (obs Obs) {
 	go func() { wgU.Wait(); wgR.Wait(); close(done) }()
 	select {
 	case <-done:
-	case <-time.After(30 * time.Second):
-		obs.Status, obs.Note = "blocked", "update calls or requests still pending after 30s"
+	case <-time.After(90 * time.Second):
+		obs.Status, obs.Note = "blocked", "update calls or requests still pending after 90s"
+		buf := make([]byte, 1<<20)
+		obs.Stacks = relevantStacks(string(buf[:runtime.Stack(buf, true)]))
 	}
 	logMu.Lock()
 	obs.Fn = append([]FnObs{}, fnLog...)
@@ -869,6 +912,25 @@ func generate(o *hx.Opts) []In {
 		}
 		out = append(out, in)
 	}
+	// the slow stream: short request time-out, slow callback (and, every other case, slow
+	// handlers of concurrent runtime requests): the queue behind the adaptation mutex is longer
+	// than the time-out, and every call must still get the callback's own result
+	for k := 0; k < o.N(6, 60); k++ {
+		in := In{Kind: "upd", Idx: idx, Seed: r.Int63()}
+		idx++
+		in.P = 4 + r.Intn(3)
+		in.U = 3 // three goroutines per plugin, one call each: all calls are issued at once
+		in.Procs = 8
+		in.ReqTimeoutMs = 600 + 100*r.Intn(4)
+		in.SlowMs = 150 + 50*r.Intn(4)
+		if k%2 == 1 {
+			in.G = 2
+			in.R = 3
+			in.HSlowMs = 80 + 20*r.Intn(4)
+		}
+		genCalls(r, &in, 1)
+		out = append(out, in)
+	}
 	for i := 0; i < n; i++ {
 		in := In{Kind: "upd", Idx: idx, Seed: r.Int63()}
 		idx++
@@ -928,6 +990,8 @@ func Run(o *hx.Opts, w *lineio.Writer) error {
 			reps := 10
 			if in.Kind != "upd" {
 				reps = 1
+			} else if in.ReqTimeoutMs > 0 {
+				reps = 3 // a slow case takes seconds, and it is its queueing, not a rare schedule, that matters
 			}
 			for k := 0; k < reps; k++ {
 				cases = append(cases, in)
